@@ -37,6 +37,9 @@ LIST_RE = re.compile(r'([ \d]\d) (.) (\S*) ([* ])')
 #   ('o=',) ('o%',) ('op', n)
 #   ('alive',)                          ec ALIVE sentinel (observes whether the editor quit)
 #   ('ln', [c1, c2, ...])               one command line `c1|c2|...` (edits s/d, forced switches, a final u/redo)
+#   ('obs', 0|1)                        not an editor command: turns the `b` listing of the observation block off / on.  The listing
+#                                       calls lbuf_modified() on EVERY buffer (it ends the open undo step of the background buffers),
+#                                       so histories about undo steps across switches look at the listing only at chosen moments
 
 
 def cmd_text(c):
@@ -88,6 +91,8 @@ def cmd_text(c):
         return '%dp\n' % c[1]
     if k == 'alive':
         return 'ec ALIVE\n'
+    if k == 'obs':
+        return '" (observation block %s the b listing from here on)\n' % ('with' if c[1] else 'without')
     if k == 'ln':
         return '|'.join(cmd_text(x).rstrip('\n') for x in c[1]) + '\n'
     raise ValueError(c)
@@ -289,7 +294,7 @@ class Spec:
     def do(self, c):
         """One command line: a single command, or ('ln', parts) = `c1|c2|...` (every part runs, a failing one does not
         stop the line).  The end of the line ends the undo step of the buffer that is current then."""
-        if self.quit:
+        if self.quit or c[0] == 'obs':
             return []
         if c[0] == 'ln':
             evs = []
@@ -351,12 +356,16 @@ class Spec:
                 t = max(dn) if dn else None
             else:
                 t = self.mru[c[1]] if c[1] < len(self.mru) else None
+            if t is not None and not self.wa:
+                b.open = False                      # the dirty test (bufs_modified -> lbuf_modified) ends the step
             if t is not None and (self.wa or not b.dirty()):
                 self.switch_to(t)
         elif k in ('n', 'p'):
             d = 1 if k == 'n' else -1
             idx = self.next_pos + d if self.next_pos < len(self.args) else -1
             if 0 <= idx < len(self.args):
+                if not self.wa:
+                    b.open = False                  # the dirty test of ec_edit
                 if self.wa or not b.dirty():
                     self.edit(False, False, self.args[idx], ev)
                     self.next_pos = idx
@@ -365,6 +374,7 @@ class Spec:
                 self.quit = True
             else:
                 d = [i for i in self.mru if self.bufs[i].dirty()]
+                b.open = False                      # the walk of ec_quit starts with the dirty test of slot 0
                 if d:
                     self.switch_to(d[0])
                 else:
@@ -474,6 +484,7 @@ def expand(files, args, cmds):
     After every command: `=`, `%p`, `<row>p` (restore), `b`."""
     sp = Spec(files, args)
     out, pred = [], []
+    listing = [True]
 
     def emit(c):
         out.append(c)
@@ -486,10 +497,16 @@ def expand(files, args, cmds):
         emit(('o%',))
         if 0 <= row < n:
             emit(('op', row + 1))
-        emit(('bl',))
+        if listing[0]:
+            emit(('bl',))
 
     observe()
     for c in cmds:
+        if c[0] == 'obs':
+            listing[0] = bool(c[1])
+            if listing[0]:
+                emit(('bl',))
+            continue
         emit(c)
         if sp.quit:
             break
@@ -910,6 +927,196 @@ def gen_history(rng, names, files, length, style, args=None, groups=None):
     return args, cmds
 
 
+def gen_reenter_files(rng):
+    names = list(NAMES)
+    rng.shuffle(names)
+    names = names[:rng.choice([2, 2, 3, 3, 4, 5])]
+    return names, {nm: ['%s%d' % (nm, j + 1) for j in range(rng.range(2, 5))] for nm in names}
+
+
+def gen_reenter(rng, names, files):
+    """Undo steps never span a buffer switch, WHICHEVER way the buffer is left and reached again.
+    An episode: (1) the current buffer A is changed and left within ONE command line (`s|e! B`, `s|e! #`, under writeany also
+    `s|b N`, `s|b +`, `s|b -`, `s|b #`, `s|next`, `s|prev`, `s|e B`), (2) now and then other buffers are visited (never A),
+    (3) A is reached again by one of all the ways there are -- `e! A`, `e #`, `b N`, `b + / -`, `b #`, `next` / `prev`, and
+    `b !` (delete the current buffer, one or several times, until A, the alternate one, moves up: the only way into a buffer
+    that does not go through bufs_switch) -- with another change on the SAME line, (4) `u` (sometimes at the end of that
+    line), `u` / `redo` again, `q`.  The reference: the step of A was closed when A was left, so the first `u` undoes the
+    new change only and A's dirty flag is the one it had before the new change.  Between (1) and (4) the observation
+    block has no `b` listing (the listing itself closes every buffer's step)."""
+    args = list(names)
+    sp = Spec(files, args)
+    cmds = []
+    tagn = [0]
+
+    def push(c):
+        cmds.append(c)
+        sp.do(c)
+
+    def edits(sim, k):
+        out = []
+        for _ in range(k):
+            n = len(sim.cur().text)
+            if n == 0:
+                break
+            tagn[0] += 1
+            a = None if (0 <= sim.row < n and rng.chance(1, 3)) else rng.range(1, n)
+            c = ('os', a, '~%d' % tagn[0]) if (n < 2 or rng.chance(4, 5)) else ('od', a)
+            out.append(c)
+            sim.do1(c)
+        return out
+
+    def ways_to(sim, target):
+        """every single command that makes buffer `target` (not current) the current one in state sim"""
+        b = sim.bufs[target]
+        w = []
+        if b.path:
+            w += [('e', 1, 0, 'lit', b.path), ('e', 1, 1, 'lit', b.path)]
+            if sim.wa:
+                w.append(('e', 0, 0, 'lit', b.path))
+        if len(sim.mru) > 1 and sim.mru[1] == target:
+            w += [('e', 1, 0, 'alt', None), ('bd',), ('bd',), ('bd',)]
+            if sim.wa:
+                w += [('ba', 1), ('e', 0, 0, 'alt', None)]
+        if len(sim.mru) > 2 and sim.mru[2] == target and sim.wa:
+            w.append(('ba', 2))
+        if sim.wa:
+            w.append(('bi', target))
+            cur = sim.cur().id
+            up = [i for i in sim.mru if i > cur]
+            dn = [i for i in sim.mru if i < cur]
+            if up and min(up) == target:
+                w.append(('b+',))
+            if dn and max(dn) == target:
+                w.append(('b-',))
+            if sim.next_pos < len(sim.args):
+                for d, c in ((1, ('n',)), (-1, ('p',))):
+                    j = sim.next_pos + d
+                    if 0 <= j < len(sim.args) and b.path and sim.args[j] == b.path:
+                        w += [c, c]
+        return w
+
+    def leave_cmd(sim, avoid=None):
+        """a command that certainly leaves the current buffer (to a buffer other than `avoid`)"""
+        cur = sim.cur()
+        cand = []
+        for i in sim.mru[1:]:
+            if i != avoid:
+                cand += ways_to(sim, i)
+        cand = [c for c in cand if c[0] != 'bd']
+        for nm in names:
+            if sim.find(nm) is None:
+                cand += [('e', 1, 0, 'lit', nm)] * 2
+        return rng.choice(cand) if cand else None
+
+    if rng.chance(1, 2):
+        push(('wa', 1))
+    order = list(names)
+    rng.shuffle(order)
+    for nm in order[:rng.range(1, len(order))]:
+        push(('e', 1, 0, 'lit', nm))
+    for ep in range(rng.range(1, 3)):
+        if sp.quit:
+            break
+        if rng.chance(1, 4):
+            push(('wa', int(not sp.wa)))
+        a = sp.cur()
+        if not a.text or not a.path:
+            c = leave_cmd(sp)
+            if c is None:
+                break
+            push(c)
+            continue
+        push(('obs', 0))
+        # (1) change A and leave it on the same line
+        sim = copy.deepcopy(sp)
+        parts = edits(sim, rng.choice([1, 1, 2]))
+        c = leave_cmd(sim)
+        if c is None:
+            push(('obs', 1))
+            break
+        parts.append(c)
+        sim.do1(c)
+        if sim.cur().id == a.id:
+            push(('obs', 1))
+            continue
+        if rng.chance(1, 3):
+            parts += edits(sim, 1)
+        push(('ln', parts))
+        # (2) elsewhere, never through A
+        for _ in range(rng.choice([0, 0, 1, 2])):
+            t = rng.below(3)
+            if t == 0 and sp.cur().text:
+                push(edits(copy.deepcopy(sp), 1)[0])
+            else:
+                sim = copy.deepcopy(sp)
+                c = leave_cmd(sim, avoid=a.id)
+                if c is not None:
+                    sim.do(c)
+                    if sim.cur().id != a.id and a.id in sim.bufs:
+                        p2 = [c] + (edits(sim, 1) if rng.chance(1, 2) else [])
+                        push(p2[0] if len(p2) == 1 else ('ln', p2))
+        if a.id not in sp.bufs or sp.cur().id == a.id:
+            push(('obs', 1))
+            continue
+        # (3) back into A, another change on the same line
+        pos = sp.mru.index(a.id)
+        sim = copy.deepcopy(sp)
+        parts = []
+        if sim.cur().text and rng.chance(1, 4):
+            parts += edits(sim, 1)                      # a change of the buffer that is left (or deleted) by this line
+        if 1 <= pos <= 3 and rng.chance(1, 2 if pos == 1 else 3):
+            # delete the current buffer until A moves up; the deletions are lines of their own or parts of the last line
+            k = pos
+            while k > 1 and rng.chance(1, 2):
+                push(('bd',))
+                k -= 1
+            sim = copy.deepcopy(sp)
+            parts = edits(sim, 1) if (parts and sim.cur().text) else []
+            for _ in range(k):
+                parts.append(('bd',))
+                sim.do1(('bd',))
+        else:
+            w = ways_to(sim, a.id)
+            if not w:
+                push(('obs', 1))
+                continue
+            c = rng.choice(w)
+            parts.append(c)
+            sim.do1(c)
+        if sim.cur().id != a.id:
+            push(('obs', 1))
+            continue
+        parts += edits(sim, rng.choice([1, 1, 2]))
+        inline_u = rng.chance(1, 4)
+        if inline_u:
+            parts.append(('ou',))
+        push(('ln', parts))
+        # (4) undo / redo, the dirty flags, quit
+        if not inline_u:
+            push(('ou',))
+        t = rng.below(6)
+        if t == 0:
+            push(('ou',))
+        elif t == 1:
+            push(('or',))
+        elif t == 2:
+            push(('ou',))
+            push(('ou',))
+        push(('obs', 1))
+        if rng.chance(1, 3):
+            push(('q', 0))
+        if rng.chance(1, 4):
+            push(('or',))
+    if not sp.quit:
+        push(('wa', 1))
+        for i in sorted(sp.mru):
+            push(('bi', i))
+        push(('wa', 0))
+        push(('q', 0))
+    return args, cmds
+
+
 def gen_quit16(rng, names, files):
     """Exactly 16 buffers, exactly one of them dirty, sitting at a chosen most-recently-used position (half of the time the
     last slot, 15): `q` must refuse and switch to it (the walk of ec_quit covers all 16 slots); after `u` it quits."""
@@ -1044,7 +1251,8 @@ def vi_case(rng, idx):
 
 def vi_undo_case(rng):
     """vi mode, `:` command lines joined by `|` that leave a buffer in mid-line, then vi's `u`: the undo history of each
-    buffer is its own (repo commit 75e4c2f) -- only the change of the last line is undone."""
+    buffer is its own (repo commit 75e4c2f) -- only the change of the last line is undone, whether the buffer is reached
+    again by `:e! name` or by `:b !` (deleting the buffer in between)."""
     nf = rng.choice([2, 3])
     names = ['v%d' % (i + 1) for i in range(nf)]
     files = {nm: ['%s_%02d_abcdefgh' % (nm, j) for j in range(12)] for nm in names}
@@ -1056,7 +1264,11 @@ def vi_undo_case(rng):
         r3 = rng.range(1, 12)
         keys.append(':%ds/^/C/|w\n' % r3)                 # a change of the other buffer, written
         expect[other][r3 - 1] = 'C' + expect[other][r3 - 1]
-    keys.append(':e! %s|%ds/^/B/\n' % (names[0], r2))
+    if rng.chance(1, 2):
+        keys.append(':e! %s|%ds/^/B/\n' % (names[0], r2))
+    else:
+        # back by deleting the current buffer: the only way into a buffer that does not go through bufs_switch
+        keys.append(':b !|%ds/^/B/\n' % r2)
     keys.append('u')
     expect[names[0]][r1 - 1] = 'A' + expect[names[0]][r1 - 1]
     if rng.chance(1, 2):
@@ -1203,7 +1415,8 @@ def run(ctx):
     res.rule = ('one evaluation = one history (sequence of open/switch/edit/undo/write/delete-buffer/quit commands over 2..16 files) run through '
                 'the real `vi -s -e`, observed after EVERY command line (single commands and `c1|c2|..` lines that switch buffers in mid-line; =, %p, current line, :b listing) and compared with the reference map '
                 'id -> (path, text, line, dirty, undo stack) + MRU list, plus the files on disk at the end (styles unnamed / spell: sessions without a file argument whose buffer is named by `:w ./n`, path spellings ./n .//n sub/../n in :e :ew :w and the argument list); or one vi-mode key program for the shortcuts. '
-                'non-trivial = the history switches buffers at least 3 times and edits at least 2 different buffers; distinct = distinct command list')
+                'style reenter: a buffer is changed and left within one command line, reached again by e / e # / b N / b + / b - / b # / next / prev / b ! (deleting the current buffer) with another change on the same line, then u / redo / q -- the b listing (which ends every buffer\'s undo step) is observed only after the u. '
+                'non-trivial = the history switches buffers at least 3 times and edits at least 2 different buffers (style reenter: at least 3 switches and two |-joined lines); distinct = distinct command list')
     hists = []      # (tag, files, args, cmds)
     if ctx.replay:
         rp = json.load(open(ctx.replay))
@@ -1246,6 +1459,13 @@ def run(ctx):
             args, cmds = gen_history(r, pool, files, r.choice([10, 20, 30]), style, args=args, groups=groups)
             hists.append((style, files, args, cmds))
 
+        # undo steps across switches: change + leave on one line, come back every way there is (incl. `b !`) + change on one line, u, q
+        for i in range(300 if ctx.quick else 6000):
+            r = rng.fork('r%d' % i)
+            names, files = gen_reenter_files(r)
+            args, cmds = gen_reenter(r, names, files)
+            hists.append(('reenter', files, args, cmds))
+
     def one(h):
         tag, files, args, cmds = h
         xcmds, pred, sp, got, r = run_history(exe, files, args, cmds)
@@ -1284,6 +1504,17 @@ def run(ctx):
             res.count('histories with |-joined command lines (mid-line buffer switch)')
         if nsw >= 3 and len(set(l.split('+')[0] for c in cmds if c[0] == 'oa' for l in c[2][:1])) >= 2:
             res.nontriv(json.dumps([list(c) for c in cmds]))
+        elif tag == 'reenter' and nsw >= 3 and sum(1 for c in cmds if c[0] == 'ln') >= 2:
+            res.nontriv(json.dumps([list(c) for c in cmds]))
+        if tag == 'reenter':
+            inside = False
+            for c in cmds:
+                if c[0] == 'obs':
+                    inside = not c[1]
+                elif inside and c[0] == 'ln' and c[1][-1][0] in ('os', 'od', 'ou'):
+                    sw = [x for x in c[1] if x[0] not in ('os', 'od', 'ou', 'or')]
+                    if sw:
+                        res.count('reenter: back by ' + ' '.join(cmd_text(sw[-1]).split()[:1] + (['#'] if sw[-1][0] == 'e' and sw[-1][3] == 'alt' else []) + (['!'] if sw[-1][0] == 'bd' else [])))
         if sp.evicted:
             res.count('histories with a 17th buffer (outside the quantifier, not judged)')
             continue
